@@ -28,6 +28,7 @@ type tableSpec struct {
 	inline   bool     // inline same-package helpers (default: only small ones)
 	raises   bool     // keep paths ending in a never-returning call (rendered "raise")
 	noAssign bool     // do not render assignments (only calls / returns)
+	fields   bool     // a constant assigned to a field is what later reads of the field on the same path see
 }
 
 var tableSpecs []tableSpec
@@ -205,7 +206,14 @@ func pathTable(c *Ctx, ts tableSpec) ([]string, []string, token.Pos) {
 		return condBody{conds: conds, body: relabel(strings.Join(es, "; ") + tail)}
 	}
 	var und []string
-	res := se.runFunc(fd, vals, names)
+	var res []pathResult
+	if ts.fields {
+		st0 := newState()
+		st0.selVals = map[string]val{}
+		res = se.runFuncFrom(fd, vals, names, st0)
+	} else {
+		res = se.runFunc(fd, vals, names)
+	}
 	if se.overflow {
 		und = append(und, "path explosion")
 	}
